@@ -396,7 +396,7 @@ Proof.
   - split; [reflexivity|]. exists []. split; [apply dstep_step, ds_setcell | split; [reflexivity | simpl; lia]].
   - split; [reflexivity|]. exists []. split; [|split; [reflexivity | simpl; lia]].
     pose proof (dstep_trans _ _ _ _ _ (ds_mismatch mm s) (ds_stack' (add_mismatch mm s))) as [Q1 Q2 Q3 Q4 Q5 Q6 Q7 Q8].
-    constructor; cbn [log excs stack attrs force uh tr set_force act_log act_inserts act_events sets_force rev app];
+    constructor; cbn [fst log excs stack attrs force uh tr set_force act_log act_inserts act_events sets_force rev app];
       rewrite ?app_nil_r, ?orb_true_r; try congruence. exact Q8.
   - split; [reflexivity|]. exists []. split; [apply dstep_step, ds_mismatch | split; [reflexivity | simpl; lia]].
   - split; [reflexivity|]. exists [KUser t body]. split; [apply step_push; exact I|].
@@ -440,4 +440,209 @@ Proof.
       split; [eapply step_trans; [exact B | exact B']|].
       split; [rewrite entries_of_app, C, C'; reflexivity|].
       rewrite stack_size_app. cbn [acts_size fold_right]. fold (acts_size r). lia.
+Qed.
+
+(* ------------------------------------------------------------------ *)
+(* the cleanup machine                                                  *)
+(* ------------------------------------------------------------------ *)
+Definition entries_log (l : list entry) : list lsh := flat_map entry_log l.
+Definition entries_excs (l : list entry) : list exc := flat_map (fun e => caught (entry_raise e)) l.
+Definition entries_force (l : list entry) : bool := existsb entry_forces l.
+Definition entries_inserts (l : list entry) : list (cls * outcome) := flat_map entry_inserts l.
+Definition entries_events (l : list entry) : list devent := flat_map entry_events l.
+
+(* what a piece of the run did *)
+Record ran (s s' : st) (lg : list lsh) (ex : list exc) (fc : bool)
+           (ins : list (cls * outcome)) (evs : list devent) : Prop := {
+  rn_log : map shape (log s') = map shape (log s) ++ lg;
+  rn_excs : excs s' = excs s ++ ex;
+  rn_force : force s' = force s || fc;
+  rn_calls : calls (tr s') = calls (tr s);
+  rn_uh : uh s' = rev ins ++ uh s;
+  rn_det : proj s' = prun evs (proj s) }.
+
+Lemma ran_refl s : ran s s [] [] false [] [].
+Proof. constructor; rewrite ?app_nil_r, ?orb_false_r; reflexivity. Qed.
+
+Definition raisedb (r : option exc) : bool := match r with Some _ => true | None => false end.
+Definition is_nil {A} (l : list A) : bool := match l with [] => true | _ => false end.
+Lemma is_nil_app {A} (a b : list A) : is_nil (a ++ b) = is_nil a && is_nil b.
+Proof. destruct a; reflexivity. Qed.
+Lemma raisedb_caught r : raisedb r = negb (is_nil (caught r)).
+Proof.
+  destruct r as [e|]; simpl; [|reflexivity].
+  pose proof (flatten_nonempty e). destruct (flatten e); [contradiction | reflexivity].
+Qed.
+
+(* _run_user around a step *)
+Lemma run_user_spec s s1 oe lg fc new ins evs :
+  step s s1 lg fc new ins evs ->
+  let r := run_user (s1, oe) in
+  snd r = raisedb oe
+  /\ ran s (fst r) lg (caught oe) fc ins (evs ++ exc_events oe)
+  /\ stack (fst r) = new ++ stack s
+  /\ undo_all (stack (fst r)) (attrs (fst r)) = undo_all (stack s) (attrs s).
+Proof.
+  intros [S1 S2 S3 S4 S5 S6 S7 S8]. unfold run_user. destruct oe as [e|]; cbn [fst snd caught raisedb].
+  - destruct (got_exception_spec e s1) as (G1 & G2 & G3 & G4 & G5 & G6 & G7 & G8).
+    split; [reflexivity|]. split; [constructor; try congruence; rewrite prun_app; congruence|]. split; congruence.
+  - split; [reflexivity|]. split; [constructor; rewrite ?app_nil_r; congruence|]. split; congruence.
+Qed.
+
+Definition entry_hd (k : cleanup) : entry :=
+  match k with
+  | KUser t b => EUser t b | KRestore a _ => ERestore a | KGather fx => EGather fx | KFxClean fx => EFx fx
+  end.
+Definition k_rest (k : cleanup) : list entry := match k with KUser _ b => pending b | _ => [] end.
+Lemma k_entries_split k : k_entries k = entry_hd k :: k_rest k.
+Proof. destruct k; reflexivity. Qed.
+
+(* the detail events of an entry before what it raises is caught *)
+Definition entry_pre (e : entry) : list devent :=
+  match e with EUser _ b => acts_events b | EGather fx => fx_events fx | _ => [] end.
+Lemma entry_events_split e : entry_events e = entry_pre e ++ exc_events (entry_raise e).
+Proof. destruct e; simpl; rewrite ?app_nil_r; reflexivity. Qed.
+
+(* an entry of _cleanups being called, the entry already popped *)
+Lemma run_cleanup_spec k s :
+  let r := run_cleanup k s in
+  snd r = entry_raise (entry_hd k)
+  /\ map shape (log (fst r)) = map shape (log s) ++ entry_log (entry_hd k)
+  /\ excs (fst r) = excs s
+  /\ force (fst r) = force s || entry_forces (entry_hd k)
+  /\ calls (tr (fst r)) = calls (tr s)
+  /\ uh (fst r) = rev (entry_inserts (entry_hd k)) ++ uh s
+  /\ proj (fst r) = prun (entry_pre (entry_hd k)) (proj s)
+  /\ exists new, stack (fst r) = new ++ stack s /\ entries_of new = k_rest k /\ stack_size new < ksize k
+                 /\ undo_all (stack (fst r)) (attrs (fst r)) = undo_all (stack s) (undo1 (attrs s) k).
+Proof.
+  destruct k as [t b | a old | fx | fx]; unfold run_cleanup; cbv zeta.
+  - destruct (exec_acts_spec b (add_log [LTok t] s)) as [A (new & B & C & D)].
+    pose proof (step_trans _ _ _ _ _ _ _ _ _ _ _ _ _ (step_log s [LTok t]) B) as [S1 S2 S3 S4 S5 S6 S7 S8].
+    cbn [entry_hd entry_raise entry_log entry_forces entry_inserts entry_pre k_rest ksize undo1].
+    split; [exact A|]. split; [exact S1|]. split; [exact S2|]. split; [exact S3|]. split; [exact S4|].
+    split; [exact S7|]. split; [exact S8|].
+    exists new. rewrite app_nil_r in S5. split; [exact S5|]. split; [exact C|]. split; [lia | exact S6].
+  - cbn [entry_hd entry_raise entry_log entry_forces entry_inserts entry_pre k_rest ksize].
+    destruct old as [v|]; cbn [fst snd]; simpl; rewrite ?orb_false_r, ?map_app;
+      (repeat (split; [reflexivity|])); exists []; repeat split; simpl; lia.
+  - destruct (ds_gather fx s) as [Q1 Q2 Q3 Q4 Q5 Q6 Q7 Q8].
+    cbn [entry_hd entry_raise entry_log entry_forces entry_inserts entry_pre k_rest ksize undo1 fst snd rev app].
+    rewrite app_nil_r, orb_false_r. split; [reflexivity|]. repeat (split; [congruence|]).
+    exists []. repeat split; simpl; try lia; congruence.
+  - destruct (fx_cleanup_spec (fx_cleanups fx) s) as [[S1 S2 S3 S4 S5 S6 S7 S8] B].
+    cbn [entry_hd entry_raise entry_log entry_forces entry_inserts entry_pre k_rest ksize undo1].
+    split; [exact B|]. split; [exact S1|]. split; [exact S2|]. split; [exact S3|]. split; [exact S4|].
+    split; [exact S7|]. split; [exact S8|].
+    exists []. repeat split; simpl; try lia; assumption.
+Qed.
+
+Lemma stack_size_pos k r : 1 <= stack_size (k :: r).
+Proof. simpl. destruct k; simpl; lia. Qed.
+
+Theorem run_cleanups_spec fuel : forall s,
+  stack_size (stack s) <= fuel ->
+  exists s' failing,
+    run_cleanups fuel s = (s', failing, false)
+    /\ ran s s' (entries_log (entries_of (stack s))) (entries_excs (entries_of (stack s)))
+                (entries_force (entries_of (stack s))) (entries_inserts (entries_of (stack s)))
+                (entries_events (entries_of (stack s)))
+    /\ failing = negb (is_nil (entries_excs (entries_of (stack s))))
+    /\ stack s' = []
+    /\ attrs s' = undo_all (stack s) (attrs s).
+Proof.
+  induction fuel as [|f IH]; intros s Hsz.
+  - destruct (stack s) as [|k rest] eqn:Est.
+    + exists s, false. simpl. rewrite Est. repeat split; try reflexivity; apply ran_refl.
+    + pose proof (stack_size_pos k rest). lia.
+  - destruct (stack s) as [|k rest] eqn:Est.
+    + exists s, false. simpl. rewrite Est. repeat split; try reflexivity; apply ran_refl.
+    + cbn [run_cleanups]. rewrite Est.
+      pose proof (run_cleanup_spec k (set_stack rest s)) as R. cbv zeta in R.
+      destruct (run_cleanup k (set_stack rest s)) as [s1 oe]. cbn [fst snd] in R.
+      destruct R as (R1 & R2 & R3 & R4 & R5 & Ru & Rd & new & R6 & R7 & R8 & R9).
+      cbn [log excs force tr stack attrs uh set_stack] in *.
+      change (proj (set_stack rest s)) with (proj s) in Rd.
+      (* run_user by hand, since a restore entry changes vars(scratch) *)
+      assert (U : exists s2, run_user (s1, oe) = (s2, raisedb oe)
+                  /\ ran s s2 (entry_log (entry_hd k)) (caught oe) (entry_forces (entry_hd k))
+                         (entry_inserts (entry_hd k)) (entry_events (entry_hd k))
+                  /\ stack s2 = new ++ rest
+                  /\ undo_all (stack s2) (attrs s2) = undo_all rest (undo1 (attrs s) k)).
+      { unfold run_user. rewrite entry_events_split, <- R1. destruct oe as [e|]; cbn [raisedb caught].
+        - destruct (got_exception_spec e s1) as (G1 & G2 & G3 & G4 & G5 & G6 & G7 & G8).
+          eexists; split; [reflexivity|]. split; [constructor; try congruence; rewrite prun_app; congruence|].
+          split; congruence.
+        - eexists; split; [reflexivity|].
+          split; [constructor; rewrite ?app_nil_r; try congruence|]. split; congruence. }
+      destruct U as (s2 & U1 & U2 & U3 & U4). rewrite U1.
+      assert (Hsz2 : stack_size (stack s2) <= f).
+      { rewrite U3, stack_size_app. simpl in Hsz. lia. }
+      destruct (IH s2 Hsz2) as (s' & failing & I1 & I2 & I3 & I4 & I5). rewrite I1.
+      exists s', (raisedb oe || failing). split; [reflexivity|].
+      assert (EE : entries_of (k :: rest) = entry_hd k :: entries_of (stack s2)).
+      { unfold entries_of at 1. cbn [flat_map]. rewrite k_entries_split. rewrite U3, entries_of_app, R7. reflexivity. }
+      rewrite EE. split.
+      { destruct U2 as [A1 A2 A3 A4 A5 A6]. destruct I2 as [B1 B2 B3 B4 B5 B6]. constructor.
+        - rewrite B1, A1, <- app_assoc. reflexivity.
+        - rewrite B2, A2, <- app_assoc. unfold entries_excs at 2. cbn [flat_map]. rewrite <- R1. reflexivity.
+        - rewrite B3, A3, <- orb_assoc. reflexivity.
+        - congruence.
+        - rewrite B5, A5. unfold entries_inserts at 2. cbn [flat_map]. rewrite rev_app_distr, app_assoc. reflexivity.
+        - rewrite B6, A6. unfold entries_events at 2. cbn [flat_map]. rewrite prun_app. reflexivity. }
+      split.
+      { rewrite I3. unfold entries_excs at 2. cbn [flat_map]. rewrite <- R1, is_nil_app, negb_andb, <- raisedb_caught.
+        reflexivity. }
+      split; [exact I4|]. rewrite I5, U4. reflexivity.
+Qed.
+
+(* ------------------------------------------------------------------ *)
+(* stages                                                               *)
+(* ------------------------------------------------------------------ *)
+Lemma run_method_spec m up s :
+  snd (run_method m up s) = match acts_raise (snd m) with
+                            | Some e => Some e
+                            | None => if up then None else Some (Exc CValueError None)
+                            end
+  /\ exists new, step s (fst (run_method m up s)) (stage_log m) (existsb sets_force (executed (snd m))) new
+                      (acts_inserts (snd m)) (acts_events (snd m))
+                 /\ entries_of new = pending (snd m) /\ stack_size new <= acts_size (snd m).
+Proof.
+  unfold run_method. destruct (exec_acts_spec (snd m) (add_log [LTok (fst m)] s)) as [A (new & B & C & D)].
+  pose proof (step_trans _ _ _ _ _ _ _ _ _ _ _ _ _ (step_log s [LTok (fst m)]) B) as S. rewrite app_nil_r in S.
+  destruct (exec_acts (snd m) (add_log [LTok (fst m)] s)) as [s1 oe]. cbn [fst snd] in *. subst oe.
+  destruct (acts_raise (snd m)); cbn [fst snd]; (split; [reflexivity|]); exists new;
+    (split; [exact S | split; assumption]).
+Qed.
+
+(* the detail events of the test method up to what it raises *)
+Definition body_pre (p : prog) : list devent :=
+  acts_events (snd (p_body p))
+  ++ (if p_xfail p then match acts_raise (snd (p_body p)) with
+                        | Some e => if isinstance e CException then [DTb] else []
+                        | None => []
+                        end else []).
+Lemma body_events_split p : body_events p = body_pre p ++ exc_events (body_raise p).
+Proof. unfold body_events, body_pre. now rewrite app_assoc. Qed.
+
+Lemma run_test_method_spec p s :
+  snd (run_test_method p s) = body_raise p
+  /\ exists new, step s (fst (run_test_method p s)) (stage_log (p_body p))
+                      (existsb sets_force (executed (snd (p_body p)))) new
+                      (acts_inserts (snd (p_body p))) (body_pre p)
+                 /\ entries_of new = pending (snd (p_body p)) /\ stack_size new <= acts_size (snd (p_body p)).
+Proof.
+  unfold run_test_method, body_raise, body_pre.
+  destruct (exec_acts_spec (snd (p_body p)) (add_log [LTok (fst (p_body p))] s)) as [A (new & B & C & D)].
+  pose proof (step_trans _ _ _ _ _ _ _ _ _ _ _ _ _ (step_log s [LTok (fst (p_body p))]) B) as S.
+  rewrite app_nil_r in S.
+  destruct (exec_acts (snd (p_body p)) (add_log [LTok (fst (p_body p))] s)) as [s1 oe]. cbn [fst snd] in *. subst oe.
+  destruct (p_xfail p).
+  - destruct (acts_raise (snd (p_body p))) as [e|].
+    + destruct (isinstance e CException); cbn [fst snd]; (split; [reflexivity|]); exists new;
+        (split; [|split; assumption]).
+      * step_chain (eapply step_trans; [exact S | apply dstep_step, ds_tb]).
+      * rewrite app_nil_r. exact S.
+    + cbn [fst snd]. split; [reflexivity|]. exists new. split; [rewrite app_nil_r; exact S | split; assumption].
+  - split; [reflexivity|]. exists new. split; [rewrite app_nil_r; exact S | split; assumption].
 Qed.
